@@ -1,5 +1,5 @@
 ------------------------------ MODULE ChainTopo ------------------------------
-(* Enumeration of the process topologies of C09 as initial states.           *)
+(* Enumeration of the process topologies of C09 (one state per topology).    *)
 (* Variables 1..NExt are external names; discipline k owns the name NExt+k.  *)
 (* Discipline k reads a non-empty set of names that exist before it          *)
 (* (external names or names owned by earlier disciplines) and writes its own *)
@@ -13,31 +13,38 @@ CONSTANTS MaxN,        \* disciplines
           NExt,        \* external names
           MaxIns,      \* inputs per discipline
           MaxExtra,    \* extra (overwriting) outputs in the whole topology
-          ExtraExt     \* TRUE: an external name may be overwritten too
+          ExtraExt,    \* TRUE: an external name may be overwritten too
+          Independent, \* TRUE: members for a parallel / additive chain (see NextInd)
+          NPool        \* Independent: number of output names
 VARIABLE topo
 
 Own(k) == NExt + k
 Before(k) == 1..(NExt + k - 1)
 NExtra(s) == Cardinality({k \in 1..Len(s) : Cardinality(s[k].outs) >= 2})
 
-RECURSIVE Build(_)
-Build(k) ==
-    IF k = 0 THEN {<<>>}
-    ELSE UNION { { Append(s, [ins |-> I, outs |-> {Own(k)} \cup E]) :
-                     E \in {{}} \cup (IF NExtra(s) < MaxExtra
-                                      THEN {{v} : v \in {w \in Before(k) \ I : ExtraExt \/ w > NExt}}
-                                      ELSE {}) } :
-                 <<s, I>> \in Build(k - 1) \X {J \in SUBSET Before(k) : J # {} /\ Cardinality(J) <= MaxIns} }
+\* The listing is built one discipline at a time: every reachable state with >= 1 discipline is a
+\* topology (the set of topologies is prefix-closed), so TLC's breadth-first search enumerates them.
+Add(I, E) == /\ Len(topo) < MaxN
+             /\ topo' = Append(topo, [ins |-> I, outs |-> {Own(Len(topo) + 1)} \cup E])
+Init == topo = <<>>
+Next == \E I \in {J \in SUBSET Before(Len(topo) + 1) : J # {} /\ Cardinality(J) <= MaxIns} :
+          \E E \in {{}} \cup (IF NExtra(topo) < MaxExtra
+                              THEN {{v} : v \in {w \in Before(Len(topo) + 1) \ I : ExtraExt \/ w > NExt}}
+                              ELSE {}) : Add(I, E)
+\* Members of a parallel / additive chain: every discipline reads external names only and writes a
+\* non-empty subset of a pool of NPool output names (several members may write the same name: the
+\* later one wins in a parallel chain, they are summed in an additive chain).
+NextInd == \E I \in {J \in SUBSET (1..NExt) : J # {}} :
+             \E O \in {Q \in SUBSET ((NExt + 1)..(NExt + NPool)) : Q # {}} :
+                /\ Len(topo) < MaxN
+                /\ topo' = Append(topo, [ins |-> I, outs |-> O])
+Spec == Init /\ [][IF Independent THEN NextInd ELSE Next]_topo
 
 AsTopo(s) == [n |-> Len(s), ins |-> [d \in 1..Len(s) |-> s[d].ins], outs |-> [d \in 1..Len(s) |-> s[d].outs]]
-Topos == UNION {{AsTopo(s) : s \in Build(n)} : n \in 1..MaxN}
-
-Init == topo \in Topos
-Next == UNCHANGED topo
-Spec == Init /\ [][Next]_topo
+T == AsTopo(topo)
 
 \* every enumerated topology is a legal instance of ChainRule
-Legal == /\ \A d \in TD(topo) : (topo.ins[d] # {} /\ topo.outs[d] # {} /\ topo.ins[d] \cap topo.outs[d] = {})
-         /\ \A d \in TD(topo) : topo.ins[d] \subseteq TChainIn(topo) \cup UNION {topo.outs[j] : j \in 1..(d - 1)}
-Emit == PrintT(<<"TOPO", topo.n, topo.ins, topo.outs, Classes(topo)>>)
+Legal == /\ \A d \in TD(T) : (T.ins[d] # {} /\ T.outs[d] # {} /\ T.ins[d] \cap T.outs[d] = {})
+         /\ \A d \in TD(T) : T.ins[d] \subseteq TChainIn(T) \cup UNION {T.outs[j] : j \in 1..(d - 1)}
+Emit == Len(topo) = 0 \/ PrintT(<<"TOPO", T.n, T.ins, T.outs, Classes(T)>>)
 =============================================================================
